@@ -1,8 +1,11 @@
 (* C16 property theorems. Nothing but statements closed by `exact lemma`, Print Assumptions and non-vacuity Examples.
-   apply true true = the repaired step function (new shard groups clipped to their live neighbours; dropping the default
-   policy clears the default name); apply false false = today's code, refuted in Refuted.v. *)
-From Coq Require Import ZArith List Bool.
-From OG Require Import C16.Model C16.Wf C16.Proofs C16.ProofsCmd C16.ProofsSg C16.ProofsRun C16.ProofsIds C16.Order.
+   apply true true on a catalogue with rekey = safecancel = true ([repaired]) is the repaired step function: new shard groups
+   clipped to their live neighbours, dropping the default policy clears the default name, a rename moves the map entry, a
+   cancelled deletion does not revive a group under a live one. The variants without a repair are refuted in Refuted.v.
+   [good] = wf (the statement) + all_aligned (every group, deleted or not, lies in one cell: needed to revive a group) +
+   covered (the C14 clause) + repaired; it is the inductive invariant. *)
+From Coq Require Import ZArith List Bool Lia.
+From OG Require Import C16.Model C16.Wf C16.Proofs C16.ProofsCmd C16.ProofsSg C16.ProofsNew C16.ProofsInv C16.ProofsRun C16.ProofsIds C16.Order.
 Import ListNotations.
 Open Scope Z_scope.
 
@@ -11,24 +14,64 @@ Theorem C16_wf_b_is_wf : forall c, wf_b c = true <-> wf c.
 Proof. exact wf_b_iff. Qed.
 Print Assumptions C16_wf_b_is_wf.
 
-Theorem C16_wf_init : forall per sc cl, wf (init_cat_v per sc cl).
-Proof. exact wf_init_v. Qed.
+Theorem C16_covered_b_is_covered : forall c, covered_b c = true <-> covered c.
+Proof. exact covered_b_iff. Qed.
+Print Assumptions C16_covered_b_is_covered.
+
+Theorem C16_wf_init : forall per sc cl sf rk sca, wf (init_cat_o per sc cl sf rk sca).
+Proof. exact wf_init_o. Qed.
 Print Assumptions C16_wf_init.
 
-(* every one of the 19 modelled commands, with any arguments (valid or not), preserves well-formedness:
+Theorem C16_good_init : forall per sc cl sf, good (init_cat_o per sc cl sf true true).
+Proof. exact good_init. Qed.
+Print Assumptions C16_good_init.
+
+(* every one of the 24 modelled commands, with any arguments (valid or not), preserves well-formedness:
    live groups of a policy and engine type pairwise disjoint, inside one cell of their creation-time duration, list sorted;
-   all ids unique, positive, at most their counters; every shard's index and owner partitions exist; defaults resolve. *)
-Theorem C16_wf_preserved : forall c x, wf c -> env_ok c x -> wf (fst (apply_repaired c x)).
+   all ids unique, positive, at most their counters; every shard's index and owner partitions exist; defaults resolve;
+   every policy is stored under its name. *)
+Theorem C16_wf_preserved : forall c x, wf c -> all_aligned c -> repaired c -> env_ok c x -> wf (fst (apply_repaired c x)).
 Proof. exact wf_step. Qed.
 Print Assumptions C16_wf_preserved.
 
+(* ... and the whole invariant is inductive *)
+Theorem C16_good_preserved : forall c x, good c -> env_ok c x -> good (fst (apply_repaired c x)).
+Proof. exact good_step. Qed.
+Print Assumptions C16_good_preserved.
+
 (* after every single step of every command sequence *)
-Theorem C16_wf_every_prefix : forall xs k per sc cl, env_run (init_cat_v per sc cl) xs -> wf (run true true (init_cat_v per sc cl) (firstn k xs)).
-Proof. intros xs k per sc cl. apply wf_run_prefix. apply wf_init_v. Qed.
+Theorem C16_wf_every_prefix : forall xs k per sc cl sf, env_run (init_cat_o per sc cl sf true true) xs ->
+  wf (run true true (init_cat_o per sc cl sf true true) (firstn k xs)).
+Proof. intros xs k per sc cl sf E. apply (good_run_prefix xs _ k (good_init per sc cl sf) E). Qed.
 Print Assumptions C16_wf_every_prefix.
 
-(* a command that fails leaves the catalogue unchanged (both variants) *)
-Theorem C16_failed_identity : forall clip cleardef c x, snd (apply clip cleardef c x) = false -> fst (apply clip cleardef c x) = c.
+(* the C14 clause as a clause about the catalogue: the index group of every shard does not end before the shard's group;
+   preserved by every command (index groups created as in /repo 76d3742) *)
+Theorem C16_cover_preserved : forall c x, wf c -> covered c -> env_ok c x -> covered (fst (apply_repaired c x)).
+Proof. exact covered_step. Qed.
+Print Assumptions C16_cover_preserved.
+
+Theorem C16_cover_every_prefix : forall xs k per sc cl sf, env_run (init_cat_o per sc cl sf true true) xs ->
+  covered (run true true (init_cat_o per sc cl sf true true) (firstn k xs)).
+Proof. intros xs k per sc cl sf E. apply (good_run_prefix xs _ k (good_init per sc cl sf) E). Qed.
+Print Assumptions C16_cover_every_prefix.
+
+(* with group starts clamped to models.MinNanoTime (/repo 3695b47) the catalogue stays representable in int64 nanoseconds, so
+   the hypothesis env_ok makes about Restore holds by itself: env_run0 = env_run without the clause for Restore *)
+Theorem C16_representable_preserved : forall c x, wf c -> clampst c = true -> representable c -> env_ok c x ->
+  representable (fst (apply_repaired c x)).
+Proof. exact representable_step. Qed.
+Print Assumptions C16_representable_preserved.
+
+Theorem C16_clamped_restore_needs_no_assumption : forall xs c, good c -> clampst c = true -> representable c ->
+  env_run0 c xs -> env_run c xs.
+Proof. exact clamped_env_run. Qed.
+Print Assumptions C16_clamped_restore_needs_no_assumption.
+
+(* a command that fails leaves the catalogue unchanged (every variant in which CreateMeasurement checks its schema list
+   first, /repo f21700b; without it: Refuted.v, C16_half_applied_refuted) *)
+Theorem C16_failed_identity : forall clip cleardef c x, schemafirst c = true ->
+  snd (apply clip cleardef c x) = false -> fst (apply clip cleardef c x) = c.
 Proof. exact failed_is_identity. Qed.
 Print Assumptions C16_failed_identity.
 
@@ -47,7 +90,7 @@ Print Assumptions C16_new_ids_fresh.
 
 (* identifiers are never handed out twice, even after deletions: an identifier present at some point and gone after the
    commands xs is absent after any continuation ys *)
-Theorem C16_ids_never_reused : forall xs ys c k id, wf c -> env_run c (xs ++ ys) ->
+Theorem C16_ids_never_reused : forall xs ys c k id, good c -> env_run c (xs ++ ys) ->
   In id (ids k c) -> ~ In id (ids k (run true true c xs)) -> ~ In id (ids k (run true true c (xs ++ ys))).
 Proof. exact ids_never_reused. Qed.
 Print Assumptions C16_ids_never_reused.
@@ -55,7 +98,7 @@ Print Assumptions C16_ids_never_reused.
 (* the repaired creation: the new group contains the instant, is inside one cell, and is disjoint from every live group *)
 Theorem C16_new_group_disjoint : forall c p ig t eng,
   existsb (fun g => covers g t eng) (rp_sgs p) = false -> 0 < rp_sgdur p -> MINNANO <= t < MAXNANO1 ->
-  aligned (new_sgroup true c p ig t eng) /\ Forall (disjoint2 (new_sgroup true c p ig t eng)) (rp_sgs p).
+  aligned_any (new_sgroup true c p ig t eng) /\ Forall (disjoint2 (new_sgroup true c p ig t eng)) (rp_sgs p).
 Proof. exact new_sgroup_ok. Qed.
 Print Assumptions C16_new_group_disjoint.
 
@@ -79,7 +122,7 @@ Print Assumptions C16_restore_transparent.
 (* ---- C15 on this command model: explicit map-iteration-order oracles (Order.v) ----
    shard_type: the sharding type of a measurement; range_create: the unmodelled RANGE branch, abstract; an oracle returns some
    element of a non-empty collection. Under uniform sharding one step gives the same state AND the same result for any two
-   valid oracles, for all 20 commands (only CreateShardGroup and CreateMeasurement consult the oracle). *)
+   valid oracles, for all 24 commands (only CreateShardGroup and CreateMeasurement consult the oracle). *)
 Theorem apply_order_independent : forall shard_type range_create clip cleardef c x o1 o2,
   valid o1 -> valid o2 -> uniform_sharding shard_type c ->
   applyO shard_type range_create clip cleardef o1 c x = applyO shard_type range_create clip cleardef o2 c x.
@@ -102,16 +145,21 @@ Theorem C15_oracle_step_is_model_step : forall range_create clip cleardef o c x,
 Proof. intros. apply applyO_hash; [assumption | reflexivity]. Qed.
 Print Assumptions C15_oracle_step_is_model_step.
 
-(* non-vacuity: the environment hypotheses are satisfiable on a run that creates, alters, deletes and prunes *)
+(* non-vacuity: the environment hypotheses are satisfiable on a run that creates, alters, renames, deletes, revives and prunes *)
 Definition example_run : list cmd :=
   [CreateNode 1 1; CreateDb 1 1 0 HOUR; CreateMst 1 1 1; CreateSg 1 1 1700042400000000005 0;
    UpdateRp 1 1 None (Some DAY) false; CreateSg 1 1 1700053200000000000 0; CreateNode 2 2; CreateSg 1 1 0 0;
-   DeleteSg 1 1 1; PruneSg 1; PruneIg 77; Restore; MarkRp 1 1; DropRp 1 1; CreateSg 1 0 5 0].
+   DeleteSg 1 1 1; CreateSg 1 1 1700042400000000005 0; CancelDeleteSg 1 1 1; PruneSg 1; PruneIg 77; Restore;
+   CreateMstBad 1 1 2; RenameRp 1 1 2 None None false; RemoveNode 1; CreateSg 1 0 MINNANO 1; Restore;
+   MarkRp 1 2; DropRp 1 2; CreateSg 1 0 5 0; DropDb 3].
 
-Example C16_example_env : env_run (init_cat 1 true) example_run.
+Example C16_example_env : env_run (init_cat_rep 1 true) example_run.
 Proof. apply env_run_b_sound. vm_compute. reflexivity. Qed.
 
+Example C16_example_env0 : env_run0 (init_cat_rep 1 true) example_run /\ representable (init_cat_rep 1 true).
+Proof. split; [apply env_run_env_run0; exact C16_example_env | constructor]. Qed.
+
 Example C16_example_state :
-  let c := run true true (init_cat 1 true) example_run in
-  wf_b c = true /\ map db_default (dbs c) = [0].
+  let c := run true true (init_cat_rep 1 true) example_run in
+  wf_b c = true /\ covered_b c = true /\ map db_default (dbs c) = [0] /\ length (pols c) = 0%nat.
 Proof. vm_compute. repeat split. Qed.
